@@ -23,10 +23,19 @@ class SigchldHelper:
     @contextlib.contextmanager
     def track(self):
         self._read_pipe, self._write_pipe = os.pipe()
+        # Python runs `_handler()` only between bytecodes. If SIGCHLD arrives
+        # just before `wait()` enters its blocking `read()`, nothing would
+        # interrupt that `read()`. Having the signal itself write a byte to the
+        # pipe (as soon as it arrives) closes that window.
+        os.set_blocking(self._write_pipe, False)
         existing_handler = signal.signal(signal.SIGCHLD, SigchldHelper._handler)
+        existing_wakeup_fd = signal.set_wakeup_fd(
+            self._write_pipe, warn_on_full_buffer=False
+        )
         try:
             yield
         finally:
+            signal.set_wakeup_fd(existing_wakeup_fd)
             signal.signal(signal.SIGCHLD, existing_handler)
             os.close(self._write_pipe)
             os.close(self._read_pipe)
@@ -35,12 +44,14 @@ class SigchldHelper:
             self._read_pipe = None
 
     def wait(self) -> Tuple[int, int]:
-        _ = os.read(self._read_pipe, 1)
+        # The pipe only wakes us up (one byte per signal received, and
+        # signals coalesce); `_returncodes` is the source of truth.
+        while len(self._returncodes) == 0:
+            _ = os.read(self._read_pipe, 4096)
         return self._extract_any()
 
     def _add_returncode(self, pid: int, returncode: int) -> None:
         self._returncodes.append((pid, returncode))
-        os.write(self._write_pipe, b"\0")
 
     def _extract_any(self) -> Tuple[int, int]:
         # Precondition: `self._returncodes` must be non-empty.
